@@ -373,12 +373,31 @@ func randomRel(out string, n int) {
 
 // ---------------------------------------------------------------- C12 determinism
 
+// detDelegators: twelve reward-delegator accounts that do not exist yet.  The payout creates
+// one account per delegator; with few delegators the IAVL tree often ends up the same whatever
+// the creation order, with twelve nearly every order gives another root hash.
+func detDelegatorNames() []string {
+	var out []string
+	for i := 15; i <= 26; i++ {
+		out = append(out, fmt.Sprintf("a%d", i))
+	}
+	return out
+}
+
+func detDelegators() map[string]interface{} {
+	m := map[string]interface{}{}
+	for i, n := range detDelegatorNames() {
+		m[n] = float64(3 + i%5)
+	}
+	return m
+}
+
 func determinismScript(rng *rand.Rand, seed int64) Script {
 	sc := Script{Seed: seed, Actions: warmActions()}
 	// a node staked by transaction with several NEW reward-delegator accounts (map iteration order)
 	sc.Actions = append(sc.Actions, Action{A: "block", Txs: []map[string]interface{}{
 		{"kind": "node_stake", "node": "a3", "chains": []interface{}{"0001"}, "amount": float64(6000000), "output": "a6",
-			"delegators": map[string]interface{}{"a15": float64(10), "a16": float64(20), "a17": float64(5), "a18": float64(15)}}}})
+			"delegators": detDelegators()}}})
 	names := []string{"a1", "a2", "a3", "a4", "a5", "a8"}
 	for b := 0; b < 12; b++ {
 		var txs []map[string]interface{}
@@ -390,7 +409,7 @@ func determinismScript(rng *rand.Rand, seed int64) Script {
 				txs = append(txs, map[string]interface{}{"kind": "send", "from": "a5", "to": names[rng.Intn(len(names))], "amount": float64(1 + rng.Intn(5000))})
 			}
 		}
-		// a3 (output a6, four delegator accounts that do not exist yet) proposes: the fees of
+		// a3 (output a6, twelve delegator accounts that do not exist yet) proposes: the fees of
 		// this block are paid out to its delegators at the next BeginBlock
 		sc.Actions = append(sc.Actions, Action{A: "block", Txs: txs, Proposer: "a3"})
 	}
@@ -418,7 +437,7 @@ func determinism(out string, n, runs int) {
 			if r == 0 {
 				first = o
 				paid := map[string]int64{}
-				for _, d := range []string{"a15", "a16", "a17", "a18", "a6"} {
+				for _, d := range append(detDelegatorNames(), "a6") {
 					paid[d] = o.Final.Bal[d]
 				}
 				tw.Emit(map[string]interface{}{"ev": "info", "id": t, "delegator_and_output_balances": paid, "a3": o.Final.Val["a3"], "tmSet": o.Final.TmSet})
